@@ -1,4 +1,5 @@
 mod c14;
+mod c15;
 mod c17;
 mod c18;
 mod common;
@@ -16,6 +17,7 @@ fn main() {
     common::silence_panics();
     match argv[1].as_str() {
         "c14" => c14::gen(&args),
+        "c15" => c15::gen(&args),
         "c17" => c17::gen(&args),
         "c18" => c18::gen(&args),
         other => {
